@@ -137,36 +137,6 @@ def dump (f : AFont String) : String :=
   s!"lib={"+".intercalate (sortS (f.lib.map fun e => hexOfStr e.1))} ib={f.info.body} ig={",".intercalate (f.info.guides.map guide)} " ++
   s!"g={f.groups} k={f.kerning} fe={f.features} L={";".intercalate (f.layers.map layer)} D={keys f.data} I={keys f.images}"
 
-/-- The harness spells layer directories and glif file names byte-exactly (`fsfam::esc`: ASCII letters, digits, period, underscore,
-    hyphen and slash as they are, every other byte as `%XX`); the trees of this property are given as plain hex, so the observed spellings are
-    turned back into text before anything is compared (a spelling that is not UTF-8 is left as it is). -/
-def hexDigit (c : Char) : Option Nat :=
-  if '0' ≤ c && c ≤ '9' then some (c.toNat - '0'.toNat)
-  else if 'A' ≤ c && c ≤ 'F' then some (c.toNat - 'A'.toNat + 10)
-  else if 'a' ≤ c && c ≤ 'f' then some (c.toNat - 'a'.toNat + 10) else none
-
-def unescBytes : List Char → List UInt8
-  | '%' :: a :: b :: r =>
-    (match hexDigit a, hexDigit b with
-     | some x, some y => UInt8.ofNat (16 * x + y)
-     | _, _ => UInt8.ofNat '%'.toNat) :: (match hexDigit a, hexDigit b with
-       | some _, some _ => unescBytes r
-       | _, _ => unescBytes (a :: b :: r))
-  | c :: r => UInt8.ofNat c.toNat :: unescBytes r
-  | [] => []
-termination_by l => l.length
-
-def unescS (s : Str) : Str :=
-  match String.fromUTF8? (ByteArray.mk (unescBytes s).toArray) with
-  | some t => t.toList
-  | none => s
-
-/-- `FSFam.parseFont` with the layer directories and glif file names as text -/
-def parseFontU (toks : List String) : AFont String :=
-  let f := parseFont toks
-  { f with layers := f.layers.map fun l =>
-      { l with dir := unescS l.dir, entries := l.entries.map fun e => { e with file := unescS e.file } } }
-
 /-- section of the observation between `|` separators that starts with `<key>=` -/
 def sectionOf (obs : List String) (key : String) : List String :=
   let rec go : List String → List String
@@ -184,7 +154,7 @@ def dumpRes (r : Except LoadErr (AFont String)) : String :=
 
 def obsDump (sec : List String) (key : String) : String :=
   let r := resOf sec key
-  if r = "ok" then "ok " ++ dump (parseFontU sec)
+  if r = "ok" then "ok " ++ dump (parseFont sec)
   else if r = "panic" then "panic" else "err"
 
 /-- a dump cut at ` L=` and ` D=`: scalar parts, layers, stores -/
@@ -224,7 +194,7 @@ def run (inp obs : List String) : Verdict :=
   -- specification on the implementation's dumps
   let fullOk := resOf fullS "FULL" = "ok"
   let partOk := resOf partS "PART" = "ok"
-  let expected := "ok " ++ dump (restrict req (parseFontU fullS))
+  let expected := "ok " ++ dump (restrict req (parseFont fullS))
   let feats := ",".intercalate
     ((if (cut3 oPart).1 ≠ (cut3 expected).1 then ["parts"] else []) ++
      (if (cut3 oPart).2.1 ≠ (cut3 expected).2.1 then ["layers"] else []) ++
@@ -233,7 +203,7 @@ def run (inp obs : List String) : Verdict :=
   let s2 := if fullOk && !partOk then ["partial-succeeds"] else []
   let s3 := if oGarb ≠ oPart then ["garbage-same"] else []
   let s4 := if partOk then
-      (match (parseFontU partS).layers with
+      (match (parseFont partS).layers with
        | l :: _ => if l.dir == glyphsDir then [] else ["default-first"]
        | [] => ["default-first"]) else []
   let tags := ["shape" ++ field inp "shape", "extra" ++ field inp "extra",
